@@ -909,6 +909,8 @@ class Length(object):
             font_height=font_height,
             viewbox=viewbox,
         )
+        if isinstance(value, Length):
+            return value  # Cannot be resolved with the information given: stays symbolic.
         v = value / (ppi * 0.0393701)
         return Length("%smm" % (Length.str(v)))
 
@@ -927,6 +929,8 @@ class Length(object):
             font_height=font_height,
             viewbox=viewbox,
         )
+        if isinstance(value, Length):
+            return value  # Cannot be resolved with the information given: stays symbolic.
         v = value / (ppi * 0.393701)
         return Length("%scm" % (Length.str(v)))
 
@@ -945,6 +949,8 @@ class Length(object):
             font_height=font_height,
             viewbox=viewbox,
         )
+        if isinstance(value, Length):
+            return value  # Cannot be resolved with the information given: stays symbolic.
         v = value / ppi
         return Length("%sin" % (Length.str(v)))
 
